@@ -157,5 +157,9 @@ func init() {
 	register("C02", "", ruleRouteLookupExemptions)
 	register("C01", "", ruleRouteLookupExemptions)
 	register("C12", "", ruleDedupConditions)
+	for _, c := range []string{"C01", "C02", "C08", "C13", "C14", "C16", "C17"} {
+		register(c, "", ruleMemoKey)
+	}
+	register("C13", "", ruleArrivalOrder)
 	register("X6", "debug: R6 over whole module", ruleErr(errScope{label: "all", pkgs: []string{"pebbles", "common", "executor", "format", "gqlerrors", "introspection", "merger", "planner", "queryer", "requests"}}))
 }
